@@ -447,13 +447,16 @@ Definition step (s : sys) (e : event) : option sys :=
 Definition apply (s : sys) (e : event) : sys := match step s e with Some s' => s' | None => s end.
 Definition run (s : sys) (evs : list event) : sys := fold_left apply evs s.
 
-(* The hypothesis of the partial theorems: a step whose command is executing is not recycled.
-   (Workflow.define_step on a detached label, fully or partially.) *)
+(* The hypothesis of the partial theorems: a step whose job is in flight (its command is executing,
+   or its hash check is under way) is not recycled (Workflow.define_step on a detached label, fully
+   or partially). Outside this hypothesis the model is moreover an under-approximation: a check job
+   that is still in flight after its row was reset could deliver its verdict to a row that is no
+   longer CHECKING, which ECheckDone does not describe. *)
 Definition quiet_event (s : sys) (e : event) : Prop :=
   match e with
   | EDefine p l g cl nd =>
       match find_label l (db s) with
-      | Some i => match nth_error (db s) i with Some x => cmds x = [] | None => True end
+      | Some i => match nth_error (db s) i with Some x => cmds x = [] /\ st x <> Checking | None => True end
       | None => True
       end
   | _ => True
